@@ -184,6 +184,20 @@ def check(ctx: Ctx) -> str:
     ctx.check(all(ast.unparse(r.value) == "s" or (isinstance(r.value, ast.BinOp) and isinstance(r.value.op, ast.Add) and ast.unparse(r.value.right) == "end") for r in rets), "truncate:end", "filters:do_truncate", "end appended",
               "a truncating return path does not append `end`", tr.loc())
 
+    ctx.rule("R8", "filesizeformat: every return that names a prefix scales the value by the same expression of `unit` - the fall-through for values beyond the largest prefix agrees with the loop")
+    fs = repo.func("filters:do_filesizeformat")
+    scaled = []
+    for r_ in astq.returns(fs.node):
+        if isinstance(r_.value, ast.JoinedStr):
+            for fv in r_.value.values:
+                if isinstance(fv, ast.FormattedValue) and "unit" in {x.id for x in ast.walk(fv.value) if isinstance(x, ast.Name)}:
+                    scaled.append((ast.unparse(fv.value), r_))
+    ctx.need(bool(scaled), "do_filesizeformat: no return scaling by `unit` found")
+    forms_ = sorted({t_ for t_, _ in scaled})
+    ctx.check(len(forms_) == 1, "filesizeformat:scale-agreement", "filters:do_filesizeformat", f"returns scale by {forms_}",
+              f"the prefixed returns of do_filesizeformat disagree on the scaling ({forms_}): `unit` is base ** (i + 2), one power above the prefix printed, so a return that omits the `base *` factor prints values beyond the last prefix 1000 (1024) times too small (10**28 -> '10.0 YB' instead of '10000.0 YB')",
+              fs.loc(scaled[-1][1]))
+
     ctx.rule("R7", "regexes of the text filters classify characters by Unicode rules: no re.ASCII / (?a) on a str pattern that uses \\w, \\s, \\d or \\b, except the reviewed protocol-level patterns")
     ascii_ok = {("filters", "_attr_key_re"): "delimiters of an XML attribute name are ASCII by the HTML / XML specifications"}
     nre = 0
